@@ -22,7 +22,9 @@ from ..runner import new_part, key_hash
 RULE = ("all parameter-list shapes (posonly 0-2 x pos-or-kw 0-2 x every number of trailing defaults "
         "x {none, *args, bare *} x kwonly 0-2 each with/without default x optional **kwargs) x "
         "{plain, annotated} x placement {module, nested function with a captured default name, class "
-        "body}; each converted under a rotating pair (quick) / all 8 (thorough) configurations, and "
+        "body}, and un-annotated in 8 more placements (parameters captured by a nested function; the same "
+        "signature on a lambda at module level, in a function, in a class body; def in a loop with "
+        "continue/break, in a class in a function, in an if branch, under two decorators); each converted under a rotating pair (quick) / all 8 (thorough) configurations, and "
         "the harness applies a call battery (every positional count 0..p+1, every parameter by keyword, "
         "duplicates, unexpected keyword, * and ** splats of matching and non-matching sizes) to the "
         "original and the converted function object. Non-trivial: >= 2 parameter kinds or a default; "
@@ -91,7 +93,28 @@ def program(shape, annotated, where):
                 "    def f(%s)%s:\n        %s\n    bump()\n    return f\nf = outer()\n" % (sig, ret, body))
     if where == "class":
         return "class K:\n    dv = 100\n    def f(%s)%s:\n        %s\n    dv = 200\nf = K.__dict__['f']\n" % (sig, ret, body)
+    expr = body[len("return "):]
+    if where == "lambda":
+        # the same signature on a lambda (annotations cannot be written there)
+        return "dv = 100\nf = lambda %s: %s\ndv = 200\n" % (sig, expr)
+    if where == "lambda_in_function":
+        return ("def outer():\n    dv = 100\n    def bump():\n        nonlocal dv\n        dv += 100\n"
+                "    g = lambda %s: %s\n    bump()\n    return g\nf = outer()\n" % (sig, expr))
+    if where == "lambda_in_class":
+        return "class K:\n    dv = 100\n    f = lambda %s: %s\n    dv = 200\nf = K.__dict__['f']\n" % (sig, expr)
+    if where == "loop":
+        return "fs = []\nfor dv in (100, 300):\n    def f(%s)%s:\n        %s\n    fs.append(f)\n    if dv == 100:\n        continue\n    break\nf = fs[0]\n" % (sig, ret, body)
+    if where == "class_in_function":
+        return ("def outer(dv):\n    class K:\n        def f(%s)%s:\n            %s\n    dv += 1\n    return K\nf = outer(100).__dict__['f']\n"
+                % (sig, ret, body))
+    if where == "branch":
+        return "dv = 100\nif dv:\n    def f(%s)%s:\n        %s\nelse:\n    def f():\n        return None\ndv = 200\n" % (sig, ret, body)
+    if where == "decorated":
+        return ("dv = 100\ndef keep(fn):\n    return fn\n@keep\n@keep\ndef f(%s)%s:\n    %s\ndv = 200\n" % (sig, ret, body))
     raise ValueError(where)
+
+
+MORE_PLACEMENTS = ("lambda", "lambda_in_function", "lambda_in_class", "loop", "class_in_function", "branch", "decorated")
 
 
 def battery(shape):
@@ -203,6 +226,7 @@ def _shape_shard(item):
     part = new_part()
     cases = [(sh, an, wh) for sh in shapes() for an in (False, True) for wh in ("module", "function", "class")]
     cases += [(sh, False, "closure") for sh in shapes()]
+    cases += [(sh, False, wh) for sh in shapes() for wh in MORE_PLACEMENTS]
     for k in range(idx, len(cases), nshards):
         if len(part["violations"]) >= 3:
             break
